@@ -5,8 +5,8 @@ From PyHam.proofs Require Import SessionFacts.
 Import ListNotations.
 
 (* For every forest, every finite sequence `ops` of analysis calls (vertical and lateral comparisons,
-   whole-dataset profile, ancestral clustering, iHam export, with arbitrary arguments, repeated and
-   interleaved) and every further call o: the result of o after the history equals its result on the
+   whole-dataset and per-family profiles, ancestral clustering, iHam export, navigation from a HOG, get_at_level,
+   with arbitrary arguments, repeated and interleaved) and every further call o: the result of o after the history equals its result on the
    freshly loaded analysis, which is a function of the loaded data only (pure_out).  The caches
    (HOGMaps keyed by the pair, memoised clustering, memoised iHam page) are therefore not observable.
    The loaded forest is a parameter of the step function: no call writes to it. *)
@@ -63,7 +63,8 @@ Definition fam : hog :=
 Definition fo0 : forest := {| fo_tops := [fam]; fo_singles := [] |}.
 (* X is a species of the tree without any gene: the profile gives it no genome (and no map) *)
 Example c17_nonvacuous :
-  let ops := [OLateral [0; 0; 1] [1; 1]; OVertical [0; 1] [0; 0; 1]; OProfileFull; OVertical [0; 0; 1] [1]; OIham 0; OClustering [0; 1]] in
+  let ops := [OLateral [0; 0; 1] [1; 1]; OVertical [0; 1] [0; 0; 1]; OProfileFull; OVertical [0; 0; 1] [1]; OIham 0; OClustering [0; 1];
+              OProfileHog 0; ONav 2; OAtLevel (RHog 2) [0; 0; 1]] in
   let s0 := sinit [[1]; [0; 1]; [0; 0; 1]; [1; 0; 1]; [1; 1]] in
   List.length (ss_maps (srun tr fo0 ops s0)) = 6 /\
   ss_genomes (srun tr fo0 ops s0) = [[1]; [0; 1]; [0; 0; 1]; [1; 0; 1]; [1; 1]; []] /\
